@@ -24,14 +24,17 @@ class Ob:
     """one CBMC run = one obligation family (many CBMC properties)"""
     def __init__(self, id, props, tu, roots, harness, entry='harness', spec=None, enforce=None, replace=(),
                  tier='U', unwind=None, unwindset=None, defines=None, cfg='kernel', timeout=300, quick=True,
-                 covers=0, expect_loops=(), note='', flags=(), bounds=None, loop_contracts=True, object_bits=None,
-                 expected_fail=(), kissat=False, spec_text=''):
+                 covers=0, expect_loops=(), note='', flags=(), bounds=None, loop_contracts=True, object_bits=12,
+                 expected_fail=(), kissat=False, spec_text='', includes=(), copies=()):
         self.id = id; self.props = props; self.tu = tu; self.roots = roots; self.harness = harness; self.entry = entry
+        self.mesh_harness = None
+        if not isinstance(harness, str):
+            self.mesh_harness = harness; self.harness = harness.cbmc_text()
         self.spec = spec; self.enforce = enforce; self.replace = list(replace); self.tier = tier
         self.unwind = unwind; self.unwindset = unwindset; self.defines = defines or {}; self.cfg = cfg
         self.timeout = timeout; self.quick = quick; self.covers = covers; self.expect_loops = expect_loops
         self.note = note; self.flags = list(flags); self.bounds = bounds or {}; self.loop_contracts = loop_contracts
-        self.object_bits = object_bits; self.expected_fail = expected_fail; self.kissat = kissat; self.spec_text = spec_text
+        self.object_bits = object_bits; self.expected_fail = expected_fail; self.kissat = kissat; self.spec_text = spec_text; self.includes = list(includes); self.copies = list(copies)
 
 # ---------------------------------------------------------------------------------------------- AST cache
 TUS = {'kernel': 'tu/kernel.cc', 'tethex': 'tu/tethex.cc', 'ovmb': 'tu/ovmb.cc', 'vector': 'tu/vector.cc'}
@@ -85,13 +88,34 @@ def cfg_named(name):
         return dict(dynamic_type=dyn,
                     drop_fields={RM: ['persistent_props_', 'storage_trackers_']},
                     extra_fields={RM: [(g, 'std::vector<int>') for g in GHOSTS]},
-                    stubs={RM + '::' + k: 1 for k in ['resize_vprops', 'resize_eprops', 'resize_fprops', 'resize_cprops',
-                           'vertex_deleted', 'edge_deleted', 'face_deleted', 'cell_deleted', 'swap_property_elements',
-                           'copy_property_elements', 'reserve_vprops', 'reserve_eprops', 'reserve_fprops', 'reserve_cprops',
-                           'clear_all_props']})
+                    stubs={RM + '::' + k: 1 for k in ['resize_props', 'reserve_props', 'entity_deleted', 'swap_property_elements',
+                           'copy_property_elements', 'clear_all_props', 'clear_props']})
     if name == 'plain':
         return {}
     raise Cxx2cError('unknown config ' + name)
+
+GH = {'Entity_Vertex': 'ghost_v', 'Entity_Edge': 'ghost_e', 'Entity_HalfEdge': 'ghost_he', 'Entity_Face': 'ghost_f',
+      'Entity_HalfFace': 'ghost_hf', 'Entity_Cell': 'ghost_c', 'VH': 'ghost_v', 'EH': 'ghost_e', 'HEH': 'ghost_he',
+      'FH': 'ghost_f', 'HFH': 'ghost_hf', 'CH': 'ghost_c'}
+
+def ghost_stub_bodies(unit):
+    """bodies of the stubbed ResourceManager template-level notifications (ghost property arrays, spec/wf.h)"""
+    out = []
+    for cn, proto in unit.em.stub_protos.items():
+        m = re.match(r'^ResourceManager__(resize_props|reserve_props|entity_deleted|swap_property_elements|copy_property_elements|clear_props)_(\w+)$', cn)
+        if cn == 'ResourceManager__clear_all_props':
+            out.append(proto + ' { /* properties become private; storages stay tracked */ }'); continue
+        if not m: raise Cxx2cError('no ghost body for stub ' + cn)
+        op, tag = m.group(1), m.group(2)
+        if tag == 'Entity_Mesh' or tag == 'MH': out.append(proto + ' { }'); continue
+        g = 'self->' + GH[tag]
+        if op == 'resize_props': out.append(proto + ' { ghost_resize(&%s, _n); }' % g)
+        elif op == 'reserve_props': out.append(proto + ' { }')
+        elif op == 'clear_props': out.append(proto + ' { }')
+        elif op == 'entity_deleted': out.append(proto + ' { ghost_erase(&%s, _h.idx_); }' % g)
+        elif op == 'swap_property_elements': out.append(proto + ' { ghost_swap(&%s, _idx_a.idx_, _idx_b.idx_); }' % g)
+        elif op == 'copy_property_elements': out.append(proto + ' { ghost_copy(&%s, _idx_a.idx_, _idx_b.idx_); }' % g)
+    return '\n'.join(out) + '\n'
 
 # ---------------------------------------------------------------------------------------------- one obligation
 def sh(cmd, timeout, log, mem_gb=8, cwd=None):
@@ -132,6 +156,10 @@ def run_ob(ob, tier, workdir):
         for r in ob.roots:
             if isinstance(r, str): unit.want(r, all_overloads=True)
             else: unit.want(r[0], sig=r[1])
+        from ctypes_ import parse_type
+        for ck in ob.copies:
+            unit.em.fc = None
+            unit.em.copy_helper(unit.em.canon(parse_type(ck)))
         ctext = unit.generate()
         # contracts must have been woven: every named function present
         for cn in ([ob.enforce] if ob.enforce else []) + ob.replace:
@@ -145,7 +173,9 @@ def run_ob(ob, tier, workdir):
         open(os.path.join(d, 'gen.c'), 'w').write(ctext)
         hpath = os.path.join(d, 'h.c')
         defs = ''.join('#define %s %s\n' % kv for kv in ob.defines.items())
-        open(hpath, 'w').write(defs + '#include "gen.c"\nint g_k, g_j; unsigned long g_u;\n#include "%s/spec/common.h"\n' % ROOT + ob.harness + '\n')
+        stubs = ghost_stub_bodies(unit) if unit.em.stub_protos else ''
+        inc = ''.join('#include "%s/spec/%s"\n' % (ROOT, h) for h in ob.includes)
+        open(hpath, 'w').write(defs + '#include "gen.c"\nint g_k, g_j; unsigned long g_u;\n#include "%s/spec/common.h"\n' % ROOT + inc + stubs + ob.harness + '\n')
     except Cxx2cError as e:
         res['status'] = 'undecided'; res['reason'] = 'extraction: ' + str(e)
         open(log, 'a').write(str(e) + '\n'); res['wall_s'] = time.time() - t0
@@ -154,6 +184,19 @@ def run_ob(ob, tier, workdir):
         res['status'] = 'undecided'; res['reason'] = 'internal: ' + repr(e) + traceback.format_exc()
         open(log, 'a').write(res['reason']); res['wall_s'] = time.time() - t0
         return res
+    # content-addressed result cache: identical formula (generated text + harness + flags + tool version) is solved once per session
+    key = hashlib.sha256(('\0'.join([ctext, open(hpath).read(), repr((ob.enforce, ob.replace, ob.loop_contracts, ob.unwind, ob.unwindset, ob.flags, ob.object_bits, ob.kissat, ob.covers, CBMC_FLAGS)), cbmc_version()] + [open(os.path.join(ROOT, 'spec', h)).read() for h in ['common.h'] + ob.includes])).encode()).hexdigest()
+    cpath = os.path.join(BUILD, 'cache', key + '.json')
+    if os.path.exists(cpath) and not os.environ.get('VERIF_NOCACHE'):
+        c = json.load(open(cpath))
+        if c.get('status') in ('pass', 'fail'):
+            res.update(c); res['cached'] = True; res['log'] = log; res['results'] = [tuple(x) for x in c['results']]
+            if 'fails' in c: res['fails'] = [tuple(x) for x in c['fails']]
+            res['covers'] = tuple(c.get('covers', (0, 0)))
+            open(log, 'a').write('result taken from cache %s\n' % cpath)
+            res['wall_s'] = time.time() - t0
+            return res
+    res['cache_path'] = cpath
     rc, out, _ = sh(['goto-cc', '--function', ob.entry, 'h.c', '-o', 'a.gb', '-I', ROOT], 120, log, cwd=d)
     if rc != 0:
         res['status'] = 'undecided'; res['reason'] = 'goto-cc failed: ' + out[-800:]; res['wall_s'] = time.time() - t0; return res
@@ -199,17 +242,30 @@ def run_ob(ob, tier, workdir):
         want = sum(1 for cn in [ob.enforce] for o in contracts.get(cn, {}).get('loops', {}))
         if want and res['loops'] == 0:
             res['status'] = 'undecided'; res['reason'] = 'loop contract silently dropped (no loop_invariant_step obligations)'
-    # vacuity: cover points
+    # vacuity: cover points (build with -DCOVER_RUN: each COVER(c) becomes assert(!c) and must FAIL, i.e. be reachable)
     if res['status'] == 'pass' and ob.covers:
-        rc2, out2, dt2 = sh(['cbmc', binp, '--cover', 'cover', '--no-malloc-may-fail'] + (['--unwind', str(ob.unwind)] if ob.unwind is not None else []) + (['--unwindset', ob.unwindset] if ob.unwindset else []) + (['--object-bits', str(ob.object_bits)] if ob.object_bits else []), to, log, cwd=d)
-        cov = [(m.group(1), m.group(4)) for m in COVER_RE.finditer(out2) if 'cover' in m.group(1)]
-        sat = len([c for c in cov if c[1] == 'SATISFIED'])
+        rc2, out2, _ = sh(['goto-cc', '--function', ob.entry, '-DCOVER_RUN', 'h.c', '-o', 'c.gb', '-I', ROOT], 120, log, cwd=d)
+        cb2 = ['cbmc', 'c.gb', '--no-malloc-may-fail', '--no-standard-checks']
+        if ob.unwind is not None: cb2 += ['--unwind', str(ob.unwind)]
+        if ob.unwindset: cb2 += ['--unwindset', ob.unwindset]
+        if ob.object_bits: cb2 += ['--object-bits', str(ob.object_bits)]
+        rc2, out2, dt2 = sh(cb2, to, log, cwd=d)
+        cov = [(m.group(1), m.group(3), m.group(4)) for m in RES_RE.finditer(out2) if m.group(3).startswith('COVER ')]
+        sat = len([c for c in cov if c[2] == 'FAILURE'])
         res['covers'] = (len(cov), sat)
         res['solver_s'] += dt2
         if len(cov) < ob.covers or sat < len(cov):
-            res['status'] = 'undecided'; res['reason'] = 'vacuity: %d of %d cover points satisfied (expected %d)' % (sat, len(cov), ob.covers)
+            res['status'] = 'undecided'; res['reason'] = 'vacuity: %d of %d cover points reachable (expected %d)' % (sat, len(cov), ob.covers)
     res['wall_s'] = time.time() - t0
+    if res['status'] in ('pass', 'fail'):
+        os.makedirs(os.path.dirname(res['cache_path']), exist_ok=True)
+        json.dump({k: v for k, v in res.items() if k not in ('log', 'cache_path')}, open(res['cache_path'], 'w'))
     return res
+
+_cbmc_v = []
+def cbmc_version():
+    if not _cbmc_v: _cbmc_v.append(subprocess.run(['cbmc', '--version'], stdout=subprocess.PIPE).stdout.decode().strip())
+    return _cbmc_v[0]
 
 # ---------------------------------------------------------------------------------------------- properties
 def load_obligations(prop, tier):
@@ -272,6 +328,7 @@ def check(prop, tier):
     for oname, k in known:
         print('KNOWN-FINDING: property=%s obligation=%s %s' % (prop, oname, k.get('what', '')))
     rc = 0
+    real_viol = 0; nviol_suppressed = 0
     if violations:
         rc = 1
         os.makedirs(os.path.join(ROOT, 'replay'), exist_ok=True)
@@ -282,12 +339,18 @@ def check(prop, tier):
             path = os.path.join(ROOT, 'replay', 'out', '%s-%s.json' % (prop, re.sub(r'[^A-Za-z0-9_.-]', '_', ob.id)))
             os.makedirs(os.path.dirname(path), exist_ok=True)
             rep = make_replay(ob, r, path, prop)
-            print('VIOLATION property=%s replay=%s obligation=%s:%s (%s)%s' % (prop, path, ob.id, name, desc, '' if rep else ' no-failing-input-found'))
+            if rep == 'discrepancy':
+                undecided.append((ob, dict(r, reason='counterexample does not reproduce on the real library (see %s): tool/extraction discrepancy, not reported as violation' % path)))
+                nviol_suppressed += 1
+                continue
+            real_viol += 1
+            print('VIOLATION property=%s replay=%s obligation=%s:%s (%s)%s' % (prop, path, ob.id, name, desc, '' if rep is True else ' no-failing-input-found'))
+        if real_viol == 0: rc = 0
     if undecided and rc == 0:
         rc = 2
     for ob, r in undecided:
         print('UNDECIDED property=%s obligation=%s reason=%s' % (prop, ob.id, r['reason'][:300].replace('\n', ' ')))
-    write_evidence(prop, tier, seed, list(zip(obs, results)), time.time() - t0, nviol=len(violations))
+    write_evidence(prop, tier, seed, list(zip(obs, results)), time.time() - t0, nviol=real_viol, known=[k[0] for k in known])
     npass = len([r for r in results if r['status'] == 'pass'])
     print('property %s tier %s: %d obligation families, %d passed, %d failed, %d undecided, %.1fs' % (
         prop, tier, len(obs), npass, len([r for r in results if r['status'] == 'fail']), len(undecided), time.time() - t0))
@@ -302,7 +365,8 @@ def make_replay(ob, r, path, prop):
     if ob.unwindset: cb += ['--unwindset', ob.unwindset]
     if ob.object_bits: cb += ['--object-bits', str(ob.object_bits)]
     rc, out, dt = sh(cb, 600, r['log'], cwd=d)
-    trace = out[out.find('Trace for'):] if 'Trace for' in out else out[-4000:]
+    i = max(out.find('Trace for'), out.find('Counterexample:'))
+    trace = out[i:] if i >= 0 else out
     rep = dict(property=prop, obligation=ob.id, failed=[dict(name=n, description=ds) for (n, ds, st) in r.get('fails', [])],
                functions=r['functions'], tier=ob.tier, bounds=ob.bounds, cbmc_trace=trace[-60000:], native_replay=None)
     confirmed = False
@@ -310,17 +374,20 @@ def make_replay(ob, r, path, prop):
         import replay.native as native
         nr = native.replay(ob, r, trace, d)
         rep['native_replay'] = nr
-        confirmed = bool(nr and nr.get('confirmed'))
+        if nr and nr.get('confirmed'): confirmed = True
+        elif nr and 'discrepancy' in (nr.get('reason') or ''): confirmed = 'discrepancy'
     except Exception as e:
-        rep['native_replay'] = {'confirmed': False, 'reason': 'no native replayer for this obligation family: ' + repr(e)[:200]}
+        rep['native_replay'] = {'confirmed': False, 'reason': 'native replay failed to run: ' + repr(e)[:300] + traceback.format_exc()[-600:]}
     json.dump(rep, open(path, 'w'), indent=1)
     return confirmed
 
-def write_evidence(prop, tier, seed, pairs, wall, nviol=0, undecided=None):
-    obligations = sum(len(r['results']) for o, r in pairs)
+def write_evidence(prop, tier, seed, pairs, wall, nviol=0, undecided=None, known=()):
+    kn = set(known)
+    total = sum(len(r['results']) for o, r in pairs)
+    obligations = total - len(kn)          # known findings are reported separately, never counted as discharged
     discharged = sum(len([x for x in r['results'] if x[2] == 'SUCCESS']) for o, r in pairs if r['status'] in ('pass', 'fail'))
     u = [(o, r) for o, r in pairs if o.tier == 'U']; b = [(o, r) for o, r in pairs if o.tier != 'U']
-    all_pass = pairs and all(r['status'] == 'pass' for o, r in pairs)
+    all_pass = pairs and obligations == discharged and all(r['status'] in ('pass', 'fail') for o, r in pairs) and not nviol
     level = 'proof' if (all_pass and not b) else 'model_checking'
     funcs = {}
     for o, r in pairs:
@@ -336,7 +403,7 @@ def write_evidence(prop, tier, seed, pairs, wall, nviol=0, undecided=None):
                functions_under_contract=sorted(funcs.values(), key=lambda f: f['c']),
                obligation_families=[dict(id=o.id, tier=o.tier, status=r['status'], reason=r['reason'][:200], cbmc_properties=len(r['results']),
                                          solver_s=round(r['solver_s'], 2), enforce=o.enforce, replaced_by_contract=o.replace,
-                                         loop_invariant_step_obligations=r['loops'], covers=list(r['covers']), bounds=o.bounds, note=o.note,
+                                         loop_invariant_step_obligations=r['loops'], from_result_cache=bool(r.get('cached')), covers=list(r['covers']), bounds=o.bounds, note=o.note,
                                          extracted_functions=r.get('n_extracted', 0), refs_emitted_as_pointers=r.get('ptr_refs', [])) for o, r in pairs],
                proved_unbounded=sum(len(r['results']) for o, r in u if r['status'] == 'pass'),
                bounded=sum(len(r['results']) for o, r in b if r['status'] == 'pass'),
@@ -349,6 +416,7 @@ def write_evidence(prop, tier, seed, pairs, wall, nviol=0, undecided=None):
                rule='one evaluation = one CBMC run (obligation family) over a symbolic pre-state; distinct = distinct harness/contract configurations with a non-empty obligation set',
                states=max(1, obligations), transitions=max(1, len(pairs)), traces_validated_against_impl=0)
     if undecided: cov['undecided'] = undecided
+    cov['known_finding_obligations'] = sorted(kn)
     ev = dict(property_id=prop, tier=tier, seed=seed, level=level, coverage=cov, wall_s=round(wall, 2), violations=nviol,
               assumptions=trusted_base() + ['tier B results hold only up to the bounds printed per obligation family',
                                             'dynamic type of the mesh is the configured kernel class'])
